@@ -2,7 +2,7 @@
 PROPERTY_GROUPS = {
     'C01': ['rep'],
     'C02': ['rep'],
-    'C06': ['rep'],
+    'C06': ['rep', 'timing'],
     'C08': ['timing'],
     'C09': ['timing', 'rep', 'dt'],
     'C12': ['mps'],
